@@ -98,6 +98,80 @@ class Spy(nrpickler._NonrecursivePickler):
         self.heap[me] = desc
 
 
+class RefSpy(dill.Pickler):
+    """the STANDARD recursive pickler (dill.Pickler — nothing of edgegraph), instrumented through
+    pickle's own extension points `save` / `memoize`: records for every object which objects are
+    saved before and which after its own memoisation.  This is the abstract heap of EG.Pickle,
+    obtained without looking inside nrpickler."""
+
+    def __init__(self, file, **kw):
+        super().__init__(file, **kw)
+        self.names = {}
+        self.keep = []
+        self.heap = {}
+        self.frames = []
+        self.unsupported = None
+
+    def name(self, obj):
+        if id(obj) not in self.names:
+            self.names[id(obj)] = len(self.names)
+            self.keep.append(obj)
+        return self.names[id(obj)]
+
+    def memoize(self, obj):
+        if self.frames and self.frames[-1][0] is obj:
+            self.frames[-1][3] = True
+        else:
+            self.unsupported = "memo pattern"
+        return super().memoize(obj)
+
+    def save(self, obj, save_persistent_id=True):
+        me = self.name(obj)
+        if self.frames:
+            fr = self.frames[-1]
+            (fr[2] if fr[3] else fr[1]).append(me)
+        if id(obj) in self.memo:
+            return super().save(obj, save_persistent_id)
+        fr = [obj, [], [], False]
+        self.frames.append(fr)
+        try:
+            super().save(obj, save_persistent_id)
+        finally:
+            self.frames.pop()
+        if not fr[1] and not fr[2] and not fr[3]:
+            desc = "a"
+        else:
+            desc = "%s:0:%s:%s" % ("n" if fr[2] else "t", ",".join(map(str, fr[1])), ",".join(map(str, fr[2])))
+        if me in self.heap and self.heap[me] != desc:
+            self.unsupported = "object expanded differently the second time"
+        self.heap[me] = desc
+        return None
+
+
+def ref_heap(root, protocol=None):
+    """(heap text, name of the root, unsupported?) from the instrumented standard pickler"""
+    sp = RefSpy(io.BytesIO(), protocol=protocol)
+    sp.dump(root)
+    heap = ";".join("%d=%s" % (k, v) for k, v in sorted(sp.heap.items()))
+    return heap, sp.names[id(root)], sp.unsupported
+
+
+def skeleton(data):
+    """memo skeleton of a pickle stream: MEMOIZE/PUT, GET i, POP, POP_MARK in stream order"""
+    out = []
+    for op, arg, _pos in pickletools.genops(data):
+        n = op.name
+        if n in ("MEMOIZE", "PUT", "BINPUT", "LONG_BINPUT"):
+            out.append("M")
+        elif n in ("GET", "BINGET", "LONG_BINGET"):
+            out.append("G%d" % arg)
+        elif n == "POP":
+            out.append("P")
+        elif n == "POP_MARK":
+            out.append("D")
+    return ",".join(out)
+
+
 def spy_dump(root, protocol=None):
     f = io.BytesIO()
     sp = Spy(f, protocol=protocol)
@@ -182,8 +256,10 @@ class C10(Check):
         "that CPython's unpickler applied to the recursive pickler's stream yields an isomorphic copy is pickle's / dill's and is trusted; "
         "`normalize` (build-pop-GET = discard-GET) preserving the unpickler's stack effect is trusted",
         "tuples, frozensets and reduce arguments are the only `before` children; a cycle always passes through an `after` edge (CPython facts)",
-        "the abstract heap is extracted from the real run by an instrumented subclass inside the harness; runs whose memo pattern the "
-        "abstraction cannot express are counted and skipped for layer 1 only",
+        "layer 1 (event trace): the abstract heap is extracted from the real run by an instrumented subclass of the private pickler inside the harness; "
+        "runs whose memo pattern the abstraction cannot express are counted and skipped for layer 1 only; if the private names it needs are gone "
+        "(a rewrite of nrpickler's internals) layer 1 is counted as unavailable and the tie rests on layer 1b",
+        "layer 1b (memo skeleton of the bytes, black box): the heap is taken from an instrumented STANDARD dill.Pickler (save / memoize hooks of pickle itself)",
     ]
 
     def witnesses(self):
@@ -212,7 +288,7 @@ class C10(Check):
 
     def batches(self, tier, rng, real):
         quick = tier == "quick"
-        self.stats10 = dict(graphs=0, layer1_compared=0, layer1_unsupported=0, streams_equal=0, streams_differ=0,
+        self.stats10 = dict(graphs=0, layer1_compared=0, layer1_unsupported=0, layer1_unavailable=0, layer1b_compared=0, layer1b_unsupported=0, streams_equal=0, streams_differ=0,
                             loads=0, fresh_loads=0, deep_chains=0)
         for gi in range(120 if quick else 1500):
             lines, outs = self.build(rng, real, big=(gi % 5 == 0))
@@ -230,17 +306,48 @@ class C10(Check):
             sel = rng.choice(["all", "verts"] + (["V0"] if inner.V else []))
             proto = rng.choice([2, 3, 4, 5])
             r = (inner.V, inner.L, inner.W) if sel == "all" else inner.V if sel == "verts" else inner.V[0]
+            # layer 1b (black box): the memo skeleton of the BYTES the real nrpickler writes vs the skeleton
+            # of the stream the Lean queue machine writes on the heap seen by the standard pickler
+            more, mouts = [], []
+            try:
+                heap_b, root_b, unsup_b = ref_heap(r, protocol=proto)
+            except RecursionError:
+                heap_b, root_b, unsup_b = None, None, "recursion depth of the reference pickler"
+            if unsup_b:
+                self.stats10["layer1b_unsupported"] += 1
+            else:
+                self.stats10["layer1b_compared"] += 1
+                line = "pkskel %d %s root=%s proto=%d" % (root_b, heap_b, sel, proto)
+                more.append(line)
+                mouts.append(real.step(line))
+            # layer 1 (white box, finer): the event trace of the real queue loop vs the Lean queue machine.
+            # It needs the internals of _NonrecursivePickler; when a rewrite of those internals makes the
+            # instrumentation impossible it is counted as unavailable — layers 1b, 2 and 3 remain.
             try:
                 events, heap, unsupported, _ = spy_dump(r, protocol=proto)
+            except (AttributeError, TypeError, NameError) as exc:
+                self.stats10["layer1_unavailable"] += 1
+                self.stats10["layer1_unavailable_reason"] = "%s: %s" % (type(exc).__name__, exc)
+                events = None
             except Exception as exc:  # noqa: BLE001
                 self._viol.append(("the instrumented nrpickler raised %s: %s" % (type(exc).__name__, exc), lines + ["dumps"]))
                 continue
-            if unsupported:
-                self.stats10["layer1_unsupported"] += 1
-                continue
-            self.stats10["layer1_compared"] += 1
-            line = "pktrace 0 %s root=%s proto=%d" % (heap, sel, proto)
-            yield lines + [line], outs + [real.step(line)]
+            if events is not None and (not events or not heap):
+                # the hooks of the instrumented subclass were never called: the pickler no longer goes
+                # through the private methods the instrumentation overrides
+                self.stats10["layer1_unavailable"] += 1
+                self.stats10["layer1_unavailable_reason"] = "the private hooks (realsave / realmemoize) are not called any more"
+                events = None
+            if events is not None:
+                if unsupported:
+                    self.stats10["layer1_unsupported"] += 1
+                else:
+                    self.stats10["layer1_compared"] += 1
+                    line = "pktrace 0 %s root=%s proto=%d" % (heap, sel, proto)
+                    more.append(line)
+                    mouts.append(real.step(line))
+            if more:
+                yield lines + more, outs + mouts
         # depth: a chain far longer than the recursion limit
         for n in ([400] if quick else [400, 3000, 20000]):
             m = self.deep_chain(n)
